@@ -105,6 +105,41 @@ func main() {
 		for _, n := range w.FuncNamesIn(w.ModPath) {
 			fmt.Println(n)
 		}
+	case "audit":
+		// which obligations does no claimed property select? (a labelled obligation [Cnn.x] that property Cnn does not
+		// select is a contract that is written but never checked by the property it was written for)
+		all, _, _ := rc.translateAll(nil)
+		seen := map[string]bool{}
+		re := regexp.MustCompile(`\[(C[0-9][0-9])\.`)
+		for _, o := range all {
+			if seen[o.Name] || o.Kind == "canary" || o.Kind == "canary2" {
+				continue
+			}
+			seen[o.Name] = true
+			var by []string
+			for prop, pats := range w.C.Props {
+				for _, p := range pats {
+					if globMatch(p, o.Name) {
+						by = append(by, prop)
+						break
+					}
+				}
+			}
+			sort.Strings(by)
+			if m := re.FindStringSubmatch(o.Name); m != nil {
+				ok := false
+				for _, b := range by {
+					if b == m[1] {
+						ok = true
+					}
+				}
+				if !ok {
+					fmt.Printf("LABEL-NOT-SELECTED %s (selected by %v)\n", o.Name, by)
+				}
+			} else if len(by) == 0 {
+				fmt.Printf("unselected %s\n", o.Name)
+			}
+		}
 	default:
 		fmt.Println("unknown command", cmd)
 		code = 2
@@ -443,6 +478,27 @@ func (rc *runCtx) check(prop string, t0 time.Time) int {
 			fnHas[o.Fn] = true
 		}
 	}
+	// contract glue: an obligation that no property's patterns select (frames, call preconditions, safety, unlabelled
+	// postconditions) belongs to every property that uses the function it was generated for — the modular argument of
+	// that property assumes the function's contract, so its whole contract has to hold
+	byAny := func(name string) bool {
+		for _, ps := range w.C.Props {
+			for _, p := range ps {
+				if globMatch(p, name) {
+					return true
+				}
+			}
+		}
+		return false
+	}
+	glue := 0
+	for _, o := range all {
+		if o.Kind != "canary" && o.Kind != "canary2" && fnHas[o.Fn] && !match(o.Name) && !byAny(o.Name) {
+			sel = append(sel, o)
+			glue++
+		}
+	}
+	_ = glue
 	for _, o := range all {
 		if o.Kind == "canary" && fnHas[o.Fn] {
 			sel = append(sel, o)
